@@ -295,6 +295,23 @@ def base_files():
                             ['change', None]], 'utf-8')
     files.append(('ends-in-container', b8 + b'\n\n'))
     files.append(varying_lengths_file())
+    # CRLF headers over contents full of CR bytes that are NOT followed by
+    # LF (runs of lone CRs declared unix, UTF-16 dos text): whatever byte a
+    # read-ahead block ends on, a CR there is content, not half a header
+    # terminator
+    crs = '\r' * 230 + 'end\n'
+    b9, _ = spec.serialize([['preamble', crs, None, 0, 'unix', None],
+                            ['change', None],
+                            ['preamble', 'a\rb\r\rc\n' * 30, None, 2, 'unix',
+                             None],
+                            ['file', None], M,
+                            ['diff', b'\r' * 230 + b'\n' + b'\rx' * 100 +
+                             b'\n', None, None, 'unix'],
+                            ['file', None], M,
+                            ['diff', ('q\r\n' * 40).encode('utf-16'), None,
+                             'utf-16', 'dos']], 'utf-8')
+    files.append(('crlf-headers-cr-contents', _crlf_headers(b9)))
+    files.append(('crlf-headers-utf16', _crlf_headers(b5)))
     return files
 
 
@@ -423,7 +440,7 @@ def plan(tier):
         'units': units,
         'rule': '%d base files (simple, 200-byte headers, 230-char content '
                 'lines, newline at every residue, UTF-16/32 content, CRLF '
-                'headers, blank lines, ends in a container) x %d paddings '
+                'headers, CRLF headers over contents full of lone CRs / UTF-16, blank lines, ends in a container) x %d paddings '
                 'of the first header (0 and 5..197 bytes, shifting every '
                 'later header through every alignment) x %d read-ahead '
                 'block sizes (injected by a subclass overriding the default '
